@@ -43,9 +43,14 @@ def failing_tests(wt):
 BASE = {}
 
 
+def wt_of(pid, idx):
+    """round 1 (b1..b3) lives in /tmp/ben-<pid>, round 2 (b4..b6) in /tmp/ben4-<pid>"""
+    return ("/tmp/ben-" if int(idx) <= 3 else "/tmp/ben4-") + pid.lower()
+
+
 def one(spec):
     pid, idx = spec
-    wt = "/tmp/ben-" + pid.lower()
+    wt = wt_of(pid, idx)
     diff = os.path.join(wt, "BEN", "b%s.diff" % idx)
     name = "%s-b%s" % (pid, idx)
     if not os.path.exists(diff):
@@ -110,7 +115,7 @@ def main():
             specs += [(a, str(i)) for i in (1, 2, 3)]
     base = tempfile.mkdtemp(prefix="shk-benbase-")
     try:
-        wt = "/tmp/ben-" + specs[0][0].lower()
+        wt = wt_of(*specs[0])
         sh("rsync -a --exclude .git --exclude BEN %s/ %s/" % (wt, base))
         sh("git -C /repo archive HEAD | tar -x -C %s" % base)
         BASE["fails"], _ = failing_tests(base)
